@@ -996,3 +996,31 @@ package zapcore
 //@ immutable zapcore.counters props C09
 //@ immutable zapcore.writerWrapper props C09
 //@ immutable zapcore.multiWriteSyncer props C09
+
+// ---------------------------------------------------------------------------
+// The New functions of zapcore's pools (C08): each creates an object in the state the pool contract
+// promises for Get (contracts/std/pool.spec: "Put requires it, New creates it, hence Get returns it").
+// (function literals in package-level initialisers: numbered in source order of the package's files)
+//@ func zapcore.init$1
+//@   props C08
+//@   flags nopanic
+//@   modifies nothing
+//@   ensures fresh(result) && len(result.elems) == 0
+
+//@ func zapcore.init$2
+//@   props C08
+//@   flags nopanic
+//@   modifies nothing
+//@   ensures fresh(result) && fresh(result.cores) && result.ErrorOutput == nil && !result.dirty && result.after == nil && result.Entry == zero(type(Entry))
+
+//@ func zapcore.init$3
+//@   props C08
+//@   flags nopanic
+//@   modifies nothing
+//@   ensures fresh(result) && result.err == nil
+
+//@ func zapcore.init$4
+//@   props C08
+//@   flags nopanic
+//@   modifies nothing
+//@   ensures fresh(result) && jsonClean(result)
